@@ -320,6 +320,7 @@ func (m *Dense) Mul(a, b Matrix) {
 			return
 
 		case *SymDense:
+			m.checkOverlapMatrix(bU)
 			if aTrans {
 				c := getDenseWorkspace(ac, ar, false)
 				blas64.Symm(blas.Left, 1, bU.mat, aU.mat, 0, c.mat)
@@ -331,6 +332,7 @@ func (m *Dense) Mul(a, b Matrix) {
 			return
 
 		case *TriDense:
+			m.checkOverlapMatrix(bU)
 			// Trmm updates in place, so copy aU first.
 			if aTrans {
 				c := getDenseWorkspace(ac, ar, false)
@@ -379,6 +381,7 @@ func (m *Dense) Mul(a, b Matrix) {
 		}
 		switch aU := aU.(type) {
 		case *SymDense:
+			m.checkOverlapMatrix(aU)
 			if bTrans {
 				c := getDenseWorkspace(bc, br, false)
 				blas64.Symm(blas.Right, 1, aU.mat, bU.mat, 0, c.mat)
@@ -390,6 +393,7 @@ func (m *Dense) Mul(a, b Matrix) {
 			return
 
 		case *TriDense:
+			m.checkOverlapMatrix(aU)
 			// Trmm updates in place, so copy bU first.
 			if bTrans {
 				c := getDenseWorkspace(bc, br, false)
